@@ -73,7 +73,10 @@ class OptimizationAbstract(ABC, Generic[T]):
         :return the cost of the position, or the list of costs if the objective function is multi-objective
         :rtype: float | list[float]
         """
-        return self._task.solve(x) if self._task.minmax == TaskType.MIN else -1 * self._task.solve(x)
+        value = self._task.solve(x)
+        if self._task.minmax == TaskType.MIN:
+            return value
+        return [-v for v in value] if isinstance(value, list) else -value
 
     def _init_agent(self, position: list[Any] | np.ndarray | None = None) -> Agent:
         """
